@@ -9,8 +9,13 @@ def absBLive : Option (List Pend) → List BLive
   | none => []
   | some ps => (ps.filter (fun p => !p.cancelled)).map (fun p => ⟨p.serial, p.cid⟩)
 
+/-- `_pending`, cancelled entries included -/
+def absAwaited : Option (List Pend) → List BLive
+  | none => []
+  | some ps => ps.map (fun p => ⟨p.serial, p.cid⟩)
+
 def absB (s : St) : BSt :=
-  { live := absBLive s.pending, nreq := s.nreq, buf := s.rbuf, reading := s.pending.isSome && !s.losing, lost := s.failed }
+  { live := absBLive s.pending, awaited := absAwaited s.pending, nreq := s.nreq, buf := s.rbuf, reading := s.pending.isSome && !s.losing, lost := s.failed, reason := s.reason }
 
 /-- reachable-state invariant of the bootstrap protocol model -/
 structure BInv (s : St) : Prop where
@@ -131,6 +136,61 @@ theorem deliver_boot (fs : List Bytes) : ∀ (ps : List Pend) (losing : Bool),
       · rw [i3]; simp [List.count_cons]
       · simp only [List.singleton_append, List.contains_cons, i4]; rfl
 
+theorem absAwaited_filter_ne (ps : List Pend) (cid : Bytes) :
+    absAwaited (some (ps.filter (fun p => p.cid != cid))) = (absAwaited (some ps)).filter (fun l => l.cid != cid) := by
+  simp [absAwaited, List.filter_map, Function.comp_def]
+
+theorem absAwaited_any (ps : List Pend) (cid : Bytes) :
+    (absAwaited (some ps)).any (fun l => l.cid == cid) = ps.any (fun p => p.cid == cid) := by
+  simp [absAwaited, List.any_map, Function.comp_def]
+
+/-- the `lose` observations of `deliver` are exactly the packets `bootDrops` counts -/
+theorem deliver_drops (fs : List Bytes) : ∀ (ps : List Pend) (losing : Bool),
+    (deliver ps losing fs).2.2.count .lose = bootDrops (absAwaited (some ps)) fs ∧
+    absAwaited (some (deliver ps losing fs).1) = bootRest (absAwaited (some ps)) fs := by
+  induction fs with
+  | nil => intro ps losing; simp [deliver, bootDrops, bootRest]
+  | cons f fs ih =>
+    intro ps losing
+    simp only [deliver, bootDrops, bootRest, stringReceived, absAwaited_any]
+    by_cases hany : ps.any (fun p => p.cid == respCid f) = true
+    · simp only [hany, if_true]
+      obtain ⟨i1, i2⟩ := ih (ps.filter (fun p => p.cid != respCid f)) losing
+      rw [absAwaited_filter_ne] at i1 i2
+      refine ⟨?_, i2⟩
+      rw [List.count_append, i1]
+      have : ((ps.filter (fun p => p.cid == respCid f && !p.cancelled)).map (fun p => Ob.fire p.serial (.ok f))).count .lose = 0 := by
+        rw [List.count_eq_zero]
+        intro hm
+        obtain ⟨p, _, hp⟩ := List.mem_map.mp hm
+        simp at hp
+      rw [this]; simp
+    · have hany' : ps.any (fun p => p.cid == respCid f) = false := by simpa using hany
+      simp only [hany', Bool.false_eq_true, if_false]
+      obtain ⟨i1, i2⟩ := ih ps true
+      have hall : (absAwaited (some ps)).filter (fun l => l.cid != respCid f) = absAwaited (some ps) := by
+        rw [List.filter_eq_self]
+        intro l hl
+        simp only [absAwaited, List.mem_map] at hl
+        obtain ⟨p, hp, rfl⟩ := hl
+        simp only [List.any_eq_false] at hany'
+        have := hany' p hp
+        simpa using this
+      refine ⟨?_, ?_⟩
+      · simp only [List.singleton_append, List.count_cons_self, i1]
+      · rw [i2, hall]
+
+
+theorem absAwaited_append (a b : List Pend) : absAwaited (some (a ++ b)) = absAwaited (some a) ++ absAwaited (some b) := by
+  simp [absAwaited]
+
+theorem absAwaited_cancel (ps : List Pend) (k : Nat) :
+    absAwaited (some (ps.map (fun p => if p.serial = k then { p with cancelled := true } else p))) = absAwaited (some ps) := by
+  simp only [absAwaited, List.map_map]
+  apply List.map_congr_left
+  intro p _
+  simp only [Function.comp]
+  split <;> rfl
 
 theorem absBLive_append (a b : List Pend) : absBLive (some (a ++ b)) = absBLive (some a) ++ absBLive (some b) := by
   simp [absBLive]
@@ -174,7 +234,7 @@ theorem simB_step (strictOff : Unit) (s : St) (e : Ev) (h : BInv s) :
         split
         · simp [bstep, bootFires, absB, hp]
         · by_cases hl : s.losing = true <;>
-            simp [bstep, bootFires, absB, hp, hl, hfl', absBLive_append, absBLive]
+            simp [bstep, bootFires, absB, hp, hl, hfl', absBLive_append, absBLive, absAwaited_append, absAwaited]
   | cancel k =>
     simp only [step]
     cases hp : s.pending with
@@ -184,7 +244,7 @@ theorem simB_step (strictOff : Unit) (s : St) (e : Ev) (h : BInv s) :
       split
       · rename_i hany
         have := absBLive_any ps k
-        simp [bstep, bootFires, absB, hp, absBLive_cancel', this, hany]
+        simp [bstep, bootFires, absB, hp, absBLive_cancel', this, hany, absAwaited_cancel]
       · simp [bstep, bootFires, absB, hp]
   | bytesIn c =>
     simp only [step]
@@ -207,27 +267,28 @@ theorem simB_step (strictOff : Unit) (s : St) (e : Ev) (h : BInv s) :
         have hfires : bootFires ((deliver ps false (feed s.rbuf c).frames).2.2 ++ (if (feed s.rbuf c).exceeded then [Ob.lose] else []))
             = (bootDeliver (absBLive (some ps)) (feed s.rbuf c).frames).1 := by
           rw [bootFires_append, d1]; split <;> simp [bootFires]
+        obtain ⟨e1, e2⟩ := deliver_drops (feed s.rbuf c).frames ps false
         simp only [bstep, hbad, hfires, hcnt]
         simp only [absB, hp, hl', d2, d3]
         by_cases hex : (feed s.rbuf c).exceeded = true
-        · simp [hex]
+        · simp [hex, e1, e2]
         · have hex' : (feed s.rbuf c).exceeded = false := by simpa using hex
           by_cases hz : (deliver ps false (feed s.rbuf c).frames).2.2.count .lose = 0
-          · simp [hex', hz, hl']
+          · simp [hex', hz, hl', e2]
           · have : 0 < (deliver ps false (feed s.rbuf c).frames).2.2.count .lose := Nat.pos_of_ne_zero hz
-            simp [hex', hz, hl', this]
-  | lost =>
+            simp [hex', hz, hl', this, e2, ← e1]
+  | lost rsn =>
     simp only [step]
     cases hp : s.pending with
     | none => simp [bstep, bootFires, absB, hp]
     | some ps =>
-      have hnb : ((ps.filter (fun p => !p.cancelled)).map (fun p => Ob.fire p.serial Res.connLost)).contains .badOp = false := by
+      have hnb : ((ps.filter (fun p => !p.cancelled)).map (fun p => Ob.fire p.serial (Res.connLost rsn))).contains .badOp = false := by
         rw [Bool.eq_false_iff]; intro hc
         rw [List.contains_iff_mem] at hc
         obtain ⟨p, _, hp'⟩ := List.mem_map.mp hc
         simp at hp'
       simp only [bstep, hnb, bootFires_map_fire]
-      simp [absB, hp, absBLive, sameFires, List.isPerm_iff, List.map_map, Function.comp_def]
+      simp [absB, hp, absBLive, absAwaited, sameFires, List.isPerm_iff, List.map_map, Function.comp_def]
 
 theorem simB_run (s : St) (es : List Ev) (h : BInv s) :
     brun false (absB s) (trace s es) = some (absB (run s es)) := by
